@@ -268,7 +268,7 @@ func valueClass(v string) string {
 
 // matchEngine decides each match operator in isolation: program "if <cond on app> then class=Y", exact reference.
 func matchEngine(c *vkit.Ctx, op Opaque) {
-	n := c.N(3000, 40000)
+	n := c.N(10000, 40000)
 	for i := 0; i < n; i++ {
 		r := c.Rand("match", i)
 		g := &gen{r: r, hints: map[string][]string{}}
@@ -442,7 +442,7 @@ func main() {
 	matchEngine(c, op)
 
 	// --- programs, in children
-	nProg := c.N(6000, 300000)
+	nProg := c.N(24000, 300000)
 	par := runtime.NumCPU()
 	if par > 12 {
 		par = 12
